@@ -1,1 +1,743 @@
-import RaftLogModel.Model.Sys
+/-
+C03 — Crash safety.
+
+If the process or the machine dies at any moment, then whenever the store can be
+opened afterwards its state and entries are exactly those produced by some
+prefix of the writes issued before the crash, and that prefix includes every
+write issued before any flush whose callback had reported success.
+
+**Crash model** (`Proofs/Crash.lean`). `CrashImage fs img`: `img` consists of
+exactly the linked files of `fs`, in the same order, same ids, all linked, all
+durable; per file `f ↦ g` independently (`CutOf f g`) either
+`g.data = f.data.take k` with `f.durable ≤ k ≤ |f.data|` (a process crash is
+`k = |f.data|` for every file: `procCrash`; the worst power failure is
+`k = f.durable`: `powerCrash`), or `g.data = f.data.take b ++ zeros m` with
+`f.durable ≤ b`, `b` a record boundary of the parse of `f.data` (`parseBounds`)
+and `1 ≤ m ≤ |f.data| - b`.
+
+**What is proved** (details at each theorem; helper files `Proofs/Crash*.lean`).
+
+* S1 `c03_file_is_record_prefix`: under the journal invariant `J y`, every chunk
+  file is a byte prefix of the encodings of the chunk's records, every cut and
+  every zero-filled tail of it parses to a prefix of the records
+  (`ParsesToPrefix`), and so does the image of the file in every crash image.
+* S2 `c03_recovered_is_journal_prefix_partial`: for `CSys y r` with no chunk
+  removal outstanding (`s.removed = []`, `toRemove = []`), if `openStore cfg' img`
+  succeeds on a crash image, the state and index map it returns are the replay
+  of a prefix `P` of the retained journal; `P` contains every journal prefix
+  that ends at or below any position `D` up to which the live chunk files are
+  durable. `c03_removals_needed`: without the hypothesis the statement is false
+  (a chunk dropped from the chunk table but not yet unlinked is still loaded).
+* S3 `c03_prefix_is_a_history_prefix_partial`: along every legal history, every prefix
+  `P` of the retained journal that ends at or beyond the marker `B` (the journal
+  end right after the last purge that dropped chunks; `0` if none) mirrors the
+  first `N0 + cntW P` entry-level writes of the history (`expandOps`): same
+  state, same index keys. (`cntW` counts the records that are writes, i.e. not
+  rotation heads; `N0` = the writes whose records went with the dropped chunks.)
+* S4 `c03_acked_is_durable`: along every legal history with arbitrary worker
+  outcomes, every live chunk file is written and durable up to the acknowledged
+  position `A` (`Sys.ackRun`: the largest `upto` of a `write` request whose
+  batch was finished by a successful sync of the newest file), or to its end.
+  `c03_ack_only_raises`, `c03_flush_sends_journal_end`, `c03_acked_flush`: a
+  positive callback of a flush means `A` ≥ the journal end at that flush.
+* FINAL `c03_crash_prefix_partial`: S2 + S3 + S4 combined, with the part that is
+  not proved as the explicit hypothesis `hBA : B ≤ A` (the purge record that made
+  the dropped chunks obsolete was acknowledged before their files were
+  unlinked) and the state hypothesis "no removal outstanding". Its lower bound
+  is in writes: the recovered prefix contains every write issued before a point
+  of the history whose journal end is at or below `A`.
+  `c03_acked_writes_survive_partial`: the same with the callback: every write
+  issued before a flush whose callback reported success is in the prefix.
+  `c03_crash_prefix_no_drop`, `c03_acked_writes_survive_no_drop`: no hypothesis
+  of either kind is needed as long as no purge has dropped a chunk yet
+  (`s.jstart = 0`: the oldest live chunk is chunk 0) — these two are complete.
+-/
+import RaftLogModel.Proofs.CrashAckSys
+namespace RaftLog
+
+/-! ### The crash model, spelled out -/
+
+theorem c03_cutOf_spec (f g : File) : CutOf f g ↔
+    (g.id = f.id ∧ g.linked = true ∧ g.durable = g.data.length ∧
+      ((∃ k, f.durable ≤ k ∧ k ≤ f.data.length ∧ g.data = f.data.take k) ∨
+       (∃ b m, f.durable ≤ b ∧ b ∈ parseBounds f.data ∧ 1 ≤ m ∧ m ≤ f.data.length - b ∧
+          g.data = f.data.take b ++ List.replicate m 0))) := Iff.rfl
+
+/-- A crash image has the linked files of the directory, in order: same ids,
+all linked, and `open` sees the same chunk ids. -/
+theorem c03_crashImage_files {fs img : Fs} (h : CrashImage fs img) :
+    img.map (·.id) = (fs.filter (fun f => f.linked)).map (·.id) ∧
+    (∀ g ∈ img, g.linked = true) ∧ img.linkedIds = fs.linkedIds ∧
+    (∀ id f, fs.find id = some f → f.linked = true → ∃ g, img.find id = some g ∧ CutOf f g) :=
+  ⟨h.ids, h.all_linked, h.linkedIds, fun _ _ hf hl => h.find hf hl⟩
+
+/-- A process crash and the worst power failure are crash images. -/
+theorem c03_crash_images_exist (fs : Fs) (h : ∀ f ∈ fs, f.durable ≤ f.data.length) :
+    CrashImage fs (procCrash fs) ∧ CrashImage fs (powerCrash fs) :=
+  ⟨procCrash_image fs h, powerCrash_image fs h⟩
+
+/-- What `ParsesToPrefix rs data` says: `parseChunk data` returns the first `j`
+records of `rs` and ends cleanly (nothing left), with `eof` at a torn record, or
+with `eof`/`invalid` at a run of zero bytes. -/
+theorem c03_parsesToPrefix_spec (rs : List Record) (data : Bytes) : ParsesToPrefix rs data ↔
+    ∃ j, j ≤ rs.length ∧ ∃ e rest,
+      parseChunk data = ((rs.take j).map (fun r => (r, (encRecord r).length)), e, rest) ∧
+      data = encAll (rs.take j) ++ rest ∧
+      ((e = .clean ∧ rest = []) ∨
+       (e = .eof ∧ rest ≠ [] ∧ j < rs.length ∧ ∃ r t, r.WF ∧ t ≠ [] ∧ rest ++ t = encRecord r) ∨
+       (∃ m, 1 ≤ m ∧ rest = List.replicate m 0 ∧ e = if m < 28 then .eof else .invalid)) := Iff.rfl
+
+/-! ### S1 -/
+
+/-- **S1.** Under the journal invariant (worker alive, any control state, any
+pending bytes): for every live chunk (closed or open) with record list `rs`,
+the bytes of its file are a byte prefix of `encAll rs`; every cut of the file
+and every zero-filled tail from a record boundary parses to a prefix of `rs`
+(`clean` at a boundary, `eof` inside a record, `eof`/`invalid` with an all-zero
+rest); and the image of the file in every crash image parses to a prefix of
+`rs`. -/
+theorem c03_file_is_record_prefix {y : Sys} (h : J y) :
+    ∃ s, y.store = some s ∧ ∀ offs ∈ s.chunks, ∃ rs, AllWF rs ∧ (∃ st rest, rs = .state st :: rest) ∧
+      offsetsFrom (offs.headD 0) (recSizes rs) = offs ∧
+      (∃ t, fdata y.fs (offs.headD 0) ++ t = encAll rs) ∧
+      (∀ k, ParsesToPrefix rs ((fdata y.fs (offs.headD 0)).take k)) ∧
+      (∀ b ∈ parseBounds (fdata y.fs (offs.headD 0)), ∀ m, 1 ≤ m →
+        ParsesToPrefix rs ((fdata y.fs (offs.headD 0)).take b ++ List.replicate m 0)) ∧
+      (∀ img, CrashImage y.fs img → ∀ f, y.fs.find (offs.headD 0) = some f → f.linked = true →
+        ∃ g, img.find (offs.headD 0) = some g ∧ CutOf f g ∧ ParsesToPrefix rs g.data ∧
+          ParsesLo rs f.durable g.data) := by
+  obtain ⟨s, hs, _, hj⟩ := h
+  refine ⟨s, hs, fun offs ho => ?_⟩
+  obtain ⟨rs, h1, h2, h3, t, h4⟩ := hj.file_prefix_C3 offs ho
+  refine ⟨rs, h1, h2, h3, ⟨t, h4⟩, fun k => take_parses_C3 h1 h4 k,
+    fun b hb m hm => zeros_parses_C3 h1 h4 hb hm, ?_⟩
+  intro img himg f hf hl
+  obtain ⟨g, hg1, hg2⟩ := himg.find hf hl
+  rw [fdata_of_find_C3 hf] at h4
+  exact ⟨g, hg1, hg2, cutOf_parses_C3 h1 h4 hg2, cutOf_parses_lo_C3 h1 h4 hg2⟩
+
+/-- `ParsesLo rs lo data`: the parse yields `rs.take j` and every record of `rs`
+that ends within the first `lo` bytes is among them. -/
+theorem c03_parsesLo_spec (rs : List Record) (lo : Nat) (data : Bytes) : ParsesLo rs lo data ↔
+    ∃ j, j ≤ rs.length ∧ (∃ e rest, parseChunk data = (sized (rs.take j), e, rest)) ∧
+      ∀ i, i ≤ rs.length → (encAll (rs.take i)).length ≤ lo → i ≤ j := Iff.rfl
+
+/-! ### S2 -/
+
+/-- What the witnesses `jc`, `jo` of `RepG` are: the record lists of the closed
+chunks and of the open chunk, whose encodings are the chunks' bytes (file ++ in
+flight ++ pending) and which replay to the state and the index map of the store
+(see `c02_replay_spec`). They are unique. -/
+theorem c03_witnesses_spec {s : Store} {fs : Fs} {w : Worker} {jc : List (Closed × List Record)}
+    {jo : List Record} (g : RepG s fs w jc jo) :
+    jc.map (·.1) = s.closed ∧
+    (∀ p ∈ jc, AllWF p.2 ∧ (∃ st rest, p.2 = .state st :: rest) ∧
+      offsetsFrom p.1.id (recSizes p.2) = p.1.offsets ∧
+      fdata fs p.1.id ++ w.inflight p.1.id ++ (if s.openId = p.1.id then s.pending else [])
+        = encAll p.2) ∧
+    (AllWF jo ∧ (∃ st rest, jo = .state st :: rest) ∧
+      offsetsFrom s.openId (recSizes jo) = s.openOffsets ∧
+      fdata fs s.openId ++ w.inflight s.openId ++ s.pending = encAll jo) ∧
+    stRunO (allOps s jc jo) {} = some s.st ∧ idxRun (allOps s jc jo) [] = some s.log ∧
+    (allOps s jc jo).map (·.r) = flatRecs jc ++ jo ∧
+    allOps s jc jo = flatOps jc ++ chunkOps s.openId jo := by
+  refine ⟨g.closedEq, fun p hp => ?_, ?_, g.flat_run.1, g.flat_run.2, allOps_map_r s jc jo, rfl⟩
+  · obtain ⟨k1, k2, k3, k4⟩ := g.closedRecs p hp
+    exact ⟨k1, k2, k3, k4⟩
+  · obtain ⟨k1, k2, k3, k4⟩ := g.openRecs
+    simp only [chunkBytes, if_true] at k4
+    exact ⟨k1, k2, k3, k4⟩
+
+/-- **S2.** `y` satisfies the replay and linked-files invariants (`CSys y r`:
+reachable states do, `c02_replay_invariant`), no chunk removal is outstanding,
+`img` is a crash image of its directory, `cfg'` is any configuration (both
+`truncate` settings). If `openStore cfg' img` returns `ok` with store `s'`,
+there is a prefix `P` of the retained journal (`allOps s jc jo`: the records
+`flatRecs jc ++ jo` with chunk id and segment) whose replay from the empty state
+and index map gives exactly `s'.st` and `s'.log`. Moreover, if every live chunk
+file is durable up to the global offset `D` (or to the chunk's end), `P`
+contains every journal prefix `Q` that ends at or below `D`. -/
+theorem c03_recovered_is_journal_prefix_partial {y : Sys} {r : RefLog} (h : CSys y r) (s : Store)
+    (hs : y.store = some s) (hrem : s.removed = []) (htr : y.worker.toRemove = [])
+    (img : Fs) (hc : CrashImage y.fs img) (cfg' : Cfg)
+    (s' : Store) (w' : Worker) (fs' : Fs) (evs : List Ev)
+    (hopen : openStore cfg' img = (.ok (s', w'), fs', evs)) :
+    ∃ jc jo, RepG s y.fs y.worker jc jo ∧
+      ∀ D, (∀ p ∈ liveChunksC3 s jc jo, ∀ f, y.fs.find p.1.id = some f →
+          min (encAll p.2).length (D - p.1.id) ≤ f.durable) →
+      ∃ P, P <+: allOps s jc jo ∧ P.map (·.r) <+: flatRecs jc ++ jo ∧
+        stRun (P.map (·.r)) {} = some s'.st ∧ idxRun P [] = some s'.log ∧
+        ∀ Q, Q <+: allOps s jc jo → s.jstart + sizeSum Q ≤ D → Q <+: P := by
+  obtain ⟨⟨s0, hs0, hd, hinv⟩, ⟨s1, hs1, hli⟩⟩ := h
+  rw [hs] at hs0 hs1; cases hs0; cases hs1
+  obtain ⟨jc, jo, g, _, _⟩ := hinv.rep
+  refine ⟨jc, jo, g, fun D hD => ?_⟩
+  have hlinked := linked_of_no_removals_C3 hli hinv.j hrem htr
+  obtain ⟨P, hP, q1, q2, q3⟩ := crash_open_prefix_C3 g hinv.j hli hlinked hc cfg' D hD hopen
+  refine ⟨P, hP, ?_, q1, q2, q3⟩
+  rw [← allOps_map_r s jc jo]
+  obtain ⟨t, ht⟩ := hP
+  exact ⟨t.map (·.r), by rw [← ht, List.map_append]⟩
+
+/-- S2 with `D = 0` (no durability assumption): just the prefix. -/
+theorem c03_recovered_is_journal_prefix_partial' {y : Sys} {r : RefLog} (h : CSys y r) (s : Store)
+    (hs : y.store = some s) (hrem : s.removed = []) (htr : y.worker.toRemove = [])
+    (img : Fs) (hc : CrashImage y.fs img) (cfg' : Cfg)
+    (s' : Store) (w' : Worker) (fs' : Fs) (evs : List Ev)
+    (hopen : openStore cfg' img = (.ok (s', w'), fs', evs)) :
+    ∃ jc jo, RepG s y.fs y.worker jc jo ∧
+      ∃ P, P <+: allOps s jc jo ∧ P.map (·.r) <+: flatRecs jc ++ jo ∧
+        stRun (P.map (·.r)) {} = some s'.st ∧ idxRun P [] = some s'.log := by
+  obtain ⟨jc, jo, g, hD⟩ := c03_recovered_is_journal_prefix_partial h s hs hrem htr img hc cfg' s' w' fs'
+    evs hopen
+  obtain ⟨P, h1, h2, h3, h4, _⟩ := hD 0 (fun p _ f _ => by simp)
+  exact ⟨jc, jo, g, P, h1, h2, h3, h4⟩
+
+/-- The same in terms of `Sys.open` on the system that has the crash image as
+its directory. -/
+theorem c03_recovered_sys_open {y : Sys} {r : RefLog} (h : CSys y r) (s : Store)
+    (hs : y.store = some s) (hrem : s.removed = []) (htr : y.worker.toRemove = [])
+    (img : Fs) (hc : CrashImage y.fs img) (cfg' : Cfg)
+    (hok : (({ fs := img, cfg := cfg' } : Sys).open).1 = .ok ()) :
+    ∃ s', (({ fs := img, cfg := cfg' } : Sys).open).2.1.store = some s' ∧
+      ∃ jc jo, RepG s y.fs y.worker jc jo ∧
+      ∃ P, P <+: allOps s jc jo ∧ stRun (P.map (·.r)) {} = some s'.st ∧ idxRun P [] = some s'.log := by
+  simp only [Sys.open, Bool.false_eq_true, if_false] at hok ⊢
+  cases ho : openStore cfg' img with
+  | mk res rest =>
+    obtain ⟨fs', evs⟩ := rest
+    cases res with
+    | err k => rw [ho] at hok; cases hok
+    | panic m => rw [ho] at hok; cases hok
+    | ok sw =>
+      obtain ⟨s', w'⟩ := sw
+      obtain ⟨jc, jo, g, P, h1, _, h3, h4⟩ :=
+        c03_recovered_is_journal_prefix_partial' h s hs hrem htr img hc cfg' s' w' fs' evs ho
+      exact ⟨s', rfl, jc, jo, g, P, h1, h3, h4⟩
+
+/-- **Why "no removal outstanding" is a hypothesis of S2.** Chunks hold three
+records. After two appends, a flush, and `purge (1,1)` the chunk table holds
+only the new chunk 84, whose journal is `[State _, PurgeUpto (1,1)]`; chunk 0 is
+on the removal list but its file is still linked. In the worst power failure the
+purge record (still pending) is lost; `open` loads chunk 0 and the head of chunk
+84 and reports the two entries — while every prefix of the retained journal
+replays to an empty index map. (The state is recovered correctly; the full
+journal including the not-yet-unlinked chunk is what `open` replays.) -/
+def c03RemovalsExample : Sys :=
+  (Sys.fresh { maxRecords := 3 }).run
+    [.call (.append [(⟨1, 0⟩, [1]), (⟨1, 1⟩, [2])]), .flush none, .workerIdle, .call (.purge ⟨1, 1⟩)]
+
+theorem c03_removals_needed :
+    c03RemovalsExample.store.map (fun s => (s.closed, s.openId, s.removed)) = some ([], 84, [0]) ∧
+    (c03RemovalsExample.fs.map (fun f => (f.id, f.linked))) = [(0, true), (84, true)] ∧
+    -- the records of the only live chunk: file ++ pending
+    ((parseChunk (fdata c03RemovalsExample.fs 84 ++
+        (c03RemovalsExample.store.map (·.pending)).getD [])).1.map (·.1)).drop 1
+      = [.purgeUpto ⟨1, 1⟩] ∧
+    -- `open` on the power-failure image: two entries
+    (match (openStore {} (powerCrash c03RemovalsExample.fs)).1 with
+      | .ok (s', _) => s'.log.map (fun e => (e.1, e.2.id))
+      | _ => []) = [(0, ⟨1, 0⟩), (1, ⟨1, 1⟩)] ∧
+    -- every prefix of a journal `[State x, PurgeUpto (1,1)]` replays to an empty index map
+    (∀ x c1 g1 c2 g2, ∀ P, P <+: [(⟨.state x, c1, g1⟩ : JOp), ⟨.purgeUpto ⟨1, 1⟩, c2, g2⟩] →
+      idxRun P [] = some []) := by
+  refine ⟨by decide +kernel, by decide +kernel, by decide +kernel, by decide +kernel, ?_⟩
+  intro x c1 g1 c2 g2 P hP
+  have h2 : P = [] ∨ P = [⟨.state x, c1, g1⟩] ∨ P = [⟨.state x, c1, g1⟩, ⟨.purgeUpto ⟨1, 1⟩, c2, g2⟩] := by
+    rcases List.prefix_concat_iff.mp (show P <+: [_] ++ [_] from hP) with e | e
+    · exact Or.inr (Or.inr e)
+    · rcases List.prefix_concat_iff.mp (show P <+: [] ++ [_] from e) with e' | e'
+      · exact Or.inr (Or.inl e')
+      · exact Or.inl (List.prefix_nil.mp e')
+  rcases h2 with e | e | e <;> subst e <;> rfl
+
+/-! ### S3 -/
+
+/-- The entry-level expansion of a history reaches the same reference log. -/
+theorem c03_expansion_reaches_same (ops : List Op) (r r' : RefLog) (h : r.run ops = some r') :
+    r.run (expandOps r ops) = some r' := run_expandOps_C3 ops r r' h
+
+/-- **S3.** Along every legal history (calls legal and accepted by the
+reference log, well-formed, small; flushes; worker steps with any outcome;
+`workerIdle`; `drain`; worker alive at the end): with `W` the entry-level
+expansion of the history (`Op.append es` = one write per entry, a no-op purge =
+none) and `B` the marker (`Sys.markRun`), for the witnesses `jc`, `jo` of the
+replay invariant there is `N0` with `|W| = N0 + cntW (journal)` such that every
+prefix `P` of the retained journal that ends at or beyond `B` mirrors the first
+`N0 + cntW P` writes: they are accepted by the reference log and reach `r'` with
+`stRun P = r'.state` and index keys `= r'.entries` keys. Rotation heads are no
+writes (`cntW` does not count them). `B` is 0 or a record boundary. -/
+theorem c03_prefix_is_a_history_prefix_partial (cfg : Cfg) (steps : List Step) (r : RefLog)
+    (hsteps : ∀ st ∈ steps, st.journal = true)
+    (hlegal : RefLog.run {} (stepOps steps) = some r)
+    (hwf : ∀ op ∈ stepOps steps, op.WF ∧ op.small)
+    (halive : ((Sys.fresh cfg).run steps).worker.pc ≠ .dead) :
+    let y := (Sys.fresh cfg).run steps
+    let W := expandOps {} (stepOps steps)
+    let B := (Sys.fresh cfg).markRun steps 0
+    RefLog.run {} W = some r ∧
+    ∃ s jc jo N0, y.store = some s ∧ RepG s y.fs y.worker jc jo ∧
+      W.length = N0 + cntW (allOps s jc jo) ∧ (B = 0 ∨ 0 < s.jstart) ∧ B ≤ s.openEnd ∧
+      (B = 0 ∨ ∃ Q, Q <+: allOps s jc jo ∧ B = s.jstart + sizeSum Q) ∧
+      ∀ P, P <+: allOps s jc jo → B ≤ s.jstart + sizeSum P →
+        ∃ r', RefLog.run {} (W.take (N0 + cntW P)) = some r' ∧
+          stRun (P.map (·.r)) {} = some r'.state ∧
+          ∃ l, idxRun P [] = some l ∧ logKeys l = entKeys r'.entries := by
+  intro y W B
+  obtain ⟨⟨s, hs, _, hi⟩, _⟩ := reach_HSys cfg steps r hsteps hlegal hwf halive
+  obtain ⟨jc, jo, g, N0, hN, hmir, hbd, _⟩ := hi.hist
+  exact ⟨hi.run, s, jc, jo, N0, hs, g, hN, hi.mark, hi.markLe, hbd, hmir⟩
+
+/-- **Why S3 is restricted to prefixes that end at or beyond the marker.** In
+the state of `c03_removals_needed` (chunk 0 dropped by `purge (1,1)`, marker
+`B = 146` = the journal end after that call, retained journal
+`[State x, PurgeUpto (1,1)]` starting at 84), the prefix `[State x]` (it ends at
+118 < 146) replays to the state `x` with `last = (1,1)` and an EMPTY index map;
+no prefix of the three writes `append (1,0)`, `append (1,1)`, `purge (1,1)`
+reaches a reference log with that state and no entries: "every prefix of the
+retained journal mirrors a prefix of the writes" is false once chunks were
+dropped. (The entries live in the dropped chunk; they are purged by the record
+that follows.) -/
+theorem c03_marker_needed :
+    (Sys.fresh { maxRecords := 3 }).markRun
+      [.call (.append [(⟨1, 0⟩, [1]), (⟨1, 1⟩, [2])]), .flush none, .workerIdle, .call (.purge ⟨1, 1⟩)] 0
+      = 146 ∧
+    c03RemovalsExample.store.map (fun s => s.jstart) = some 84 ∧
+    (parseChunk (fdata c03RemovalsExample.fs 84)).1.map (·.1)
+      = [.state ⟨none, some ⟨1, 1⟩, none, none, none⟩] ∧
+    (∀ n, (RefLog.run {} ((expandOps {} (stepOps
+        [.call (.append [(⟨1, 0⟩, [1]), (⟨1, 1⟩, [2])]), .flush none, .workerIdle,
+         .call (.purge ⟨1, 1⟩)])).take n)).map (fun r' => (r'.state, entKeys r'.entries))
+      ≠ some (⟨none, some ⟨1, 1⟩, none, none, none⟩, [])) := by
+  refine ⟨by decide +kernel, by decide +kernel, by decide +kernel, ?_⟩
+  intro n
+  have h3 : expandOps {} (stepOps
+      [.call (.append [(⟨1, 0⟩, [1]), (⟨1, 1⟩, [2])]), .flush none, .workerIdle, .call (.purge ⟨1, 1⟩)])
+      = [.append [(⟨1, 0⟩, [1])], .append [(⟨1, 1⟩, [2])], .purge ⟨1, 1⟩] := by decide +kernel
+  rw [h3]
+  match n with
+  | 0 => decide +kernel
+  | 1 => decide +kernel
+  | 2 => decide +kernel
+  | n + 3 =>
+    have : ([Op.append [(⟨1, 0⟩, [1])], .append [(⟨1, 1⟩, [2])], .purge ⟨1, 1⟩] : List Op).take (n + 3)
+        = [.append [(⟨1, 0⟩, [1])], .append [(⟨1, 1⟩, [2])], .purge ⟨1, 1⟩] := by simp
+    rw [this]
+    decide +kernel
+
+/-- The marker stays 0 as long as no purge has dropped a chunk: then every
+prefix of the journal mirrors a prefix of the writes. -/
+theorem c03_marker_zero_of_no_drop (cfg : Cfg) (steps : List Step) (r : RefLog) (s : Store)
+    (hsteps : ∀ st ∈ steps, st.journal = true)
+    (hlegal : RefLog.run {} (stepOps steps) = some r)
+    (hwf : ∀ op ∈ stepOps steps, op.WF ∧ op.small)
+    (halive : ((Sys.fresh cfg).run steps).worker.pc ≠ .dead)
+    (hs : ((Sys.fresh cfg).run steps).store = some s) (h0 : s.jstart = 0) :
+    (Sys.fresh cfg).markRun steps 0 = 0 := by
+  obtain ⟨⟨s0, hs0, _, hi⟩, _⟩ := reach_HSys cfg steps r hsteps hlegal hwf halive
+  rw [hs] at hs0; cases hs0
+  rcases hi.mark with e | e
+  · exact e
+  · omega
+
+/-! ### S4 -/
+
+/-- **S4, the invariant.** Along every legal history, with arbitrary worker
+outcomes (short writes, failed syncs) as long as the worker is alive at the end:
+with `A` the acknowledged position (`Sys.ackRun`: raised only by a successful
+sync of the newest file, to the largest `upto` of the batch), `A` is at or below
+the journal end, and every live chunk `offs` (id `offs.head`, end `lastOff offs`)
+is WRITTEN up to `A` or to its end — none of the journal bytes below `A` is
+still in flight or pending — and its file is DURABLE up to `A` or to its end. -/
+theorem c03_acked_is_durable (cfg : Cfg) (steps : List Step) (r : RefLog)
+    (hsteps : ∀ st ∈ steps, st.journal = true)
+    (hlegal : RefLog.run {} (stepOps steps) = some r)
+    (hwf : ∀ op ∈ stepOps steps, op.WF ∧ op.small)
+    (halive : ((Sys.fresh cfg).run steps).worker.pc ≠ .dead) :
+    let y := (Sys.fresh cfg).run steps
+    let A := (Sys.fresh cfg).ackRun steps 0
+    ∃ s, y.store = some s ∧ A ≤ s.openEnd ∧
+      (∀ offs ∈ s.chunks,
+        min (lastOff offs - offs.headD 0) (A - offs.headD 0) ≤ (fdata y.fs (offs.headD 0)).length) ∧
+      (∀ offs ∈ s.chunks, ∀ f, y.fs.find (offs.headD 0) = some f →
+        min (lastOff offs - offs.headD 0) (A - offs.headD 0) ≤ f.durable) := by
+  intro y A
+  obtain ⟨⟨s, hs, _, hi⟩, _⟩ := reach_HSys cfg steps r hsteps hlegal hwf halive
+  exact ⟨s, hs, hi.dur.a2, hi.dur.dw, hi.dur.dd⟩
+
+/-- How the acknowledged position moves: only worker steps move it, never back;
+a worker step raises it only when it is a successful sync of the newest file
+(`syncNew`, outcome not `eio`), to the largest `upto` of the batch in hand. -/
+theorem c03_ack_only_raises (c : WCtx) (out : Outcome) (A : Nat) :
+    A ≤ c.ackStep out A ∧
+    (c.ackStep out A ≠ A → ∃ b t, c.w.pc = .syncNew b t ∧ out ≠ .eio ∧ c.ackStep out A = maxUpto b) ∧
+    (∀ y : Sys, ∀ st, A ≤ y.ackStep st A) ∧ (∀ y : Sys, ∀ steps, A ≤ y.ackRun steps A) := by
+  refine ⟨c.le_ackStep out A, ?_, fun y st => y.le_ackStep st A, fun y steps => Sys.le_ackRun steps y A⟩
+  intro hne
+  unfold WCtx.ackStep at hne ⊢
+  split at hne
+  · rename_i b t hpc
+    by_cases ho : out = .eio
+    · rw [if_pos ho] at hne; exact absurd rfl hne
+    · rw [if_neg ho] at hne
+      refine ⟨b, t, hpc, ho, ?_⟩
+      simp only [ho, if_false]
+      rcases Nat.le_total A (maxUpto b) with h | h
+      · exact Nat.max_eq_right h
+      · exact absurd (Nat.max_eq_left h) hne
+  · exact absurd rfl hne
+
+/-- A positive callback `i` newly emitted by a worker step: the step is a
+successful sync of the newest file and the acknowledged position is afterwards
+at or beyond the `upto` of a request of the batch that carries callback `i`. -/
+theorem c03_positive_callback_acks (c : WCtx) (out : Outcome) (i A : Nat) (hw : c.w.WF)
+    (hnew : Ev.cb i true ∉ c.evs) (h : Ev.cb i true ∈ (c.step out).evs) :
+    ∃ b t r, c.w.pc = .syncNew b t ∧ out ≠ .eio ∧ r ∈ b ∧ r.cbId = some i ∧
+      r.upto ≤ c.ackStep out A := by
+  obtain ⟨b, t, r, hpc, ho, hr, hi⟩ := ack_step_C3 c out i hw hnew h
+  refine ⟨b, t, r, hpc, ho, hr, hi, ?_⟩
+  simp only [WCtx.ackStep, hpc, ho, if_false]
+  exact Nat.le_trans (le_maxUpto hr) (Nat.le_max_right _ _)
+
+/-- The request `Sys.flush cb` sends carries `upto` = the journal end at the
+call (and the flush's callback). -/
+theorem c03_flush_sends_journal_end (y : Sys) (s : Store) (cb : Option Nat) (hs : y.store = some s)
+    (hd : y.worker.pc ≠ .dead) :
+    (y.step (.flush cb)).worker =
+      (y.worker.push (.write s.openEnd s.pending cb ::
+        (if s.removed.isEmpty then [] else [.removeChunks s.removed]))).settle := by
+  show (y.flush cb).2.1.worker = _
+  rw [Sys.flush_eq y cb s hs hd, flush_effQ_C3]
+
+/-- **A positive callback means the flush is covered.** History
+`pre ++ [flush (some i)] ++ mid ++ [st] ++ post` of journal steps from a fresh
+store; no other flush before `st` uses callback `i`; the worker thread emits
+`Ev.cb i true` during step `st` (a `worker out` or `workerIdle` step). Then the
+acknowledged position at the end of the history is at or beyond the journal end
+at the time of that flush — so by `c03_acked_is_durable` every record journalled
+before the flush is durable, and by `c03_crash_prefix_partial` it is in the
+prefix every crash recovery returns. -/
+theorem c03_acked_flush (cfg : Cfg) (pre mid post : List Step) (i : Nat) (st : Step) (s1 : Store)
+    (hpre : ∀ x ∈ pre, x.journal = true) (hmid : ∀ x ∈ mid, x.journal = true)
+    (hfresh : ∀ x ∈ pre ++ mid, x ≠ .flush (some i))
+    (hs1 : ((Sys.fresh cfg).run pre).store = some s1)
+    (halive : ((Sys.fresh cfg).run (pre ++ [.flush (some i)] ++ mid)).worker.pc ≠ .dead)
+    (hcb : Ev.cb i true ∈ ((Sys.fresh cfg).run (pre ++ [.flush (some i)] ++ mid)).stepEvs st) :
+    s1.openEnd ≤ (Sys.fresh cfg).ackRun (pre ++ [.flush (some i)] ++ mid ++ [st] ++ post) 0 :=
+  acked_flush_C3 cfg pre mid post i st s1 hpre hmid hfresh hs1 halive hcb
+
+/-! ### FINAL -/
+
+/-- **C03, combined (partial).** The history is split as `pre ++ post` (any
+split; think of `pre` as the history up to a flush). The final state is reached
+from a freshly opened store by a legal history (calls legal and accepted by the
+reference log, well-formed, small; flushes; worker steps of any outcome;
+`workerIdle`; `drain`), the worker is alive, and no chunk removal is outstanding
+(`s.removed = []`, the worker has nothing to unlink). `img` is any crash image of
+the directory, `cfg'` any configuration. If `openStore cfg' img` returns `ok`
+with store `s'`, then there are `n` and a reference log `r'` such that
+
+* the first `n` entry-level writes of the history are accepted and reach `r'`;
+* `s'.st = r'.state` and the index keys of `s'.log` are those of `r'.entries`;
+* (lower bound, in writes) if the journal end at the end of `pre` is at or below
+  the acknowledged position `A`, then `n` is at least the number of entry-level
+  writes issued during `pre`: the recovered prefix contains all of them;
+* (lower bound, in journal positions) `n ≥ N0 + cntW Q` for every prefix `Q` of
+  the retained journal that ends at or below `A`.
+
+Not proved, hence a hypothesis: `hBA : B ≤ A` — the marker (journal end right
+after the last purge that dropped chunks) is acknowledged. In the model chunk
+files are unlinked only after the flush that followed the purge was synced, so
+`B ≤ A` should hold whenever no removal is outstanding; the invariant that says
+so is missing. See `c03_crash_prefix_no_drop` for histories without dropped
+chunks, where it is not needed. -/
+theorem c03_crash_prefix_partial (cfg cfg' : Cfg) (pre post : List Step) (r : RefLog) (s : Store)
+    (hsteps : ∀ st ∈ pre ++ post, st.journal = true)
+    (hlegal : RefLog.run {} (stepOps (pre ++ post)) = some r)
+    (hwf : ∀ op ∈ stepOps (pre ++ post), op.WF ∧ op.small)
+    (halive : ((Sys.fresh cfg).run (pre ++ post)).worker.pc ≠ .dead)
+    (hs : ((Sys.fresh cfg).run (pre ++ post)).store = some s)
+    (hrem : s.removed = []) (htr : ((Sys.fresh cfg).run (pre ++ post)).worker.toRemove = [])
+    (hBA : (Sys.fresh cfg).markRun (pre ++ post) 0 ≤ (Sys.fresh cfg).ackRun (pre ++ post) 0)
+    (img : Fs) (hc : CrashImage ((Sys.fresh cfg).run (pre ++ post)).fs img)
+    (s' : Store) (w' : Worker) (fs' : Fs) (evs : List Ev)
+    (hopen : openStore cfg' img = (.ok (s', w'), fs', evs)) :
+    let y := (Sys.fresh cfg).run (pre ++ post)
+    let W := expandOps {} (stepOps (pre ++ post))
+    let A := (Sys.fresh cfg).ackRun (pre ++ post) 0
+    ∃ n r', RefLog.run {} (W.take n) = some r' ∧ s'.st = r'.state ∧
+      logKeys s'.log = entKeys r'.entries ∧
+      (∀ s1, ((Sys.fresh cfg).run pre).store = some s1 → s1.openEnd ≤ A →
+        (expandOps {} (stepOps pre)).length ≤ n) ∧
+      ∃ jc jo N0, RepG s y.fs y.worker jc jo ∧ W.length = N0 + cntW (allOps s jc jo) ∧
+        ∀ Q, Q <+: allOps s jc jo → s.jstart + sizeSum Q ≤ A → N0 + cntW Q ≤ n := by
+  intro y W A
+  obtain ⟨s1, hs1, h⟩ := reach_HSys_at cfg pre post r hsteps hlegal hwf halive
+  obtain ⟨n, r', k1, k2, k3, k4, k5⟩ := crash_prefix_core_C3 h hs hrem htr hBA hc cfg' hopen
+  refine ⟨n, r', k1, k2, k3, ?_, k5⟩
+  intro s1' hs1' hle
+  rw [hs1] at hs1'; cases hs1'
+  exact k4 hle
+
+/-- **C03 for histories that have not dropped a chunk yet** (the oldest live
+chunk is chunk 0): no further hypothesis. Whenever `open` succeeds on a crash
+image, the recovered state and index keys are those of the reference log after
+the first `n` entry-level writes, and `n` covers every write issued before a
+point of the history whose journal end is at or below the acknowledged position. -/
+theorem c03_crash_prefix_no_drop (cfg cfg' : Cfg) (pre post : List Step) (r : RefLog) (s : Store)
+    (hsteps : ∀ st ∈ pre ++ post, st.journal = true)
+    (hlegal : RefLog.run {} (stepOps (pre ++ post)) = some r)
+    (hwf : ∀ op ∈ stepOps (pre ++ post), op.WF ∧ op.small)
+    (halive : ((Sys.fresh cfg).run (pre ++ post)).worker.pc ≠ .dead)
+    (hs : ((Sys.fresh cfg).run (pre ++ post)).store = some s)
+    (h0 : s.jstart = 0)
+    (img : Fs) (hc : CrashImage ((Sys.fresh cfg).run (pre ++ post)).fs img)
+    (s' : Store) (w' : Worker) (fs' : Fs) (evs : List Ev)
+    (hopen : openStore cfg' img = (.ok (s', w'), fs', evs)) :
+    let y := (Sys.fresh cfg).run (pre ++ post)
+    let W := expandOps {} (stepOps (pre ++ post))
+    let A := (Sys.fresh cfg).ackRun (pre ++ post) 0
+    ∃ n r', RefLog.run {} (W.take n) = some r' ∧ s'.st = r'.state ∧
+      logKeys s'.log = entKeys r'.entries ∧
+      (∀ s1, ((Sys.fresh cfg).run pre).store = some s1 → s1.openEnd ≤ A →
+        (expandOps {} (stepOps pre)).length ≤ n) ∧
+      ∃ jc jo N0, RepG s y.fs y.worker jc jo ∧ W.length = N0 + cntW (allOps s jc jo) ∧
+        ∀ Q, Q <+: allOps s jc jo → sizeSum Q ≤ A → N0 + cntW Q ≤ n := by
+  intro y W A
+  have h := reach_HSys cfg (pre ++ post) r hsteps hlegal hwf halive
+  have hB := c03_marker_zero_of_no_drop cfg (pre ++ post) r s hsteps hlegal hwf halive hs h0
+  obtain ⟨⟨s0, hs0, _, hi⟩, ⟨s1, hs1, hli⟩, _, _⟩ := h
+  rw [hs] at hs0 hs1; cases hs0; cases hs1
+  obtain ⟨hrem, htr⟩ := no_removals_of_jstart_zero_C3 hli h0
+  obtain ⟨n, r', k1, k2, k3, k4, jc, jo, N0, g, hN, hlow⟩ :=
+    c03_crash_prefix_partial cfg cfg' pre post r s hsteps hlegal hwf halive hs hrem htr
+      (by rw [hB]; exact Nat.zero_le _) img hc s' w' fs' evs hopen
+  exact ⟨n, r', k1, k2, k3, k4, jc, jo, N0, g, hN, fun Q hQ hle => hlow Q hQ (by rw [h0]; omega)⟩
+
+/-- **C03 with the callback.** History
+`pre ++ [flush (some i)] ++ mid ++ [st] ++ post`; no other flush before `st` uses
+callback `i`; the worker thread emits `Ev.cb i true` during step `st`. Then every
+successful `open` on a crash image of the final directory recovers the state and
+index keys of the reference log after the first `n` entry-level writes, where `n`
+is at least the number of writes issued before that flush (`pre`). (Hypotheses
+as in `c03_crash_prefix_partial`.) -/
+theorem c03_acked_writes_survive_partial (cfg cfg' : Cfg) (pre mid post : List Step) (i : Nat) (st : Step)
+    (r : RefLog) (s : Store)
+    (hsteps : ∀ x ∈ pre ++ ([.flush (some i)] ++ mid ++ [st] ++ post), x.journal = true)
+    (hlegal : RefLog.run {} (stepOps (pre ++ ([.flush (some i)] ++ mid ++ [st] ++ post))) = some r)
+    (hwf : ∀ op ∈ stepOps (pre ++ ([.flush (some i)] ++ mid ++ [st] ++ post)), op.WF ∧ op.small)
+    (halive : ((Sys.fresh cfg).run (pre ++ ([.flush (some i)] ++ mid ++ [st] ++ post))).worker.pc ≠ .dead)
+    (hfresh : ∀ x ∈ pre ++ mid, x ≠ .flush (some i))
+    (hcb : Ev.cb i true ∈ ((Sys.fresh cfg).run (pre ++ [.flush (some i)] ++ mid)).stepEvs st)
+    (hs : ((Sys.fresh cfg).run (pre ++ ([.flush (some i)] ++ mid ++ [st] ++ post))).store = some s)
+    (hrem : s.removed = [])
+    (htr : ((Sys.fresh cfg).run (pre ++ ([.flush (some i)] ++ mid ++ [st] ++ post))).worker.toRemove = [])
+    (hBA : (Sys.fresh cfg).markRun (pre ++ ([.flush (some i)] ++ mid ++ [st] ++ post)) 0
+      ≤ (Sys.fresh cfg).ackRun (pre ++ ([.flush (some i)] ++ mid ++ [st] ++ post)) 0)
+    (img : Fs)
+    (hc : CrashImage ((Sys.fresh cfg).run (pre ++ ([.flush (some i)] ++ mid ++ [st] ++ post))).fs img)
+    (s' : Store) (w' : Worker) (fs' : Fs) (evs : List Ev)
+    (hopen : openStore cfg' img = (.ok (s', w'), fs', evs)) :
+    let W := expandOps {} (stepOps (pre ++ ([.flush (some i)] ++ mid ++ [st] ++ post)))
+    ∃ n r', RefLog.run {} (W.take n) = some r' ∧ s'.st = r'.state ∧
+      logKeys s'.log = entKeys r'.entries ∧ (expandOps {} (stepOps pre)).length ≤ n := by
+  intro W
+  obtain ⟨n, r', k1, k2, k3, k4, _⟩ :=
+    c03_crash_prefix_partial cfg cfg' pre ([.flush (some i)] ++ mid ++ [st] ++ post) r s hsteps hlegal hwf
+      halive hs hrem htr hBA img hc s' w' fs' evs hopen
+  refine ⟨n, r', k1, k2, k3, ?_⟩
+  -- the worker is alive at the end of `pre ++ [flush] ++ mid`, the store is open after `pre`
+  have hall : pre ++ ([.flush (some i)] ++ mid ++ [st] ++ post)
+      = (pre ++ [.flush (some i)] ++ mid) ++ ([st] ++ post) := by simp
+  have hj2 : ∀ x ∈ [st] ++ post, x.journal = true := fun x hx =>
+    hsteps x (by rw [hall]; exact List.mem_append_right _ hx)
+  have halive2 : ((Sys.fresh cfg).run (pre ++ [.flush (some i)] ++ mid)).worker.pc ≠ .dead := by
+    intro hdead
+    apply halive
+    rw [hall]
+    have : (Sys.fresh cfg).run ((pre ++ [.flush (some i)] ++ mid) ++ ([st] ++ post))
+        = ((Sys.fresh cfg).run (pre ++ [.flush (some i)] ++ mid)).run ([st] ++ post) := by
+      simp [Sys.run, List.foldl_append]
+    rw [this]
+    exact Sys.run_dead _ _ hj2 hdead
+  have hpre : ∀ x ∈ pre, x.journal = true := fun x hx => hsteps x (List.mem_append_left _ hx)
+  have hmid : ∀ x ∈ mid, x.journal = true := fun x hx =>
+    hsteps x (by rw [hall]; exact List.mem_append_left _ (List.mem_append_right _ hx))
+  have hsome : ((Sys.fresh cfg).run pre).store.isSome = true :=
+    Sys.run_store_isSome (fun x hx => journal_keepsStore_C3 (hpre x hx)) (Sys.fresh_store_isSome cfg)
+  cases hs1 : ((Sys.fresh cfg).run pre).store with
+  | none => rw [hs1] at hsome; cases hsome
+  | some s1 =>
+    apply k4 s1 hs1
+    have := c03_acked_flush cfg pre mid post i st s1 hpre hmid hfresh hs1 halive2 hcb
+    have e : pre ++ [.flush (some i)] ++ mid ++ [st] ++ post
+        = pre ++ ([.flush (some i)] ++ mid ++ [st] ++ post) := by simp
+    rw [e] at this
+    exact this
+
+/-- No chunk dropped yet (`s.jstart = 0`): nothing is scheduled for removal and
+the marker is 0. -/
+theorem c03_no_drop_facts (cfg : Cfg) (steps : List Step) (r : RefLog) (s : Store)
+    (hsteps : ∀ st ∈ steps, st.journal = true)
+    (hlegal : RefLog.run {} (stepOps steps) = some r)
+    (hwf : ∀ op ∈ stepOps steps, op.WF ∧ op.small)
+    (halive : ((Sys.fresh cfg).run steps).worker.pc ≠ .dead)
+    (hs : ((Sys.fresh cfg).run steps).store = some s) (h0 : s.jstart = 0) :
+    s.removed = [] ∧ ((Sys.fresh cfg).run steps).worker.toRemove = [] ∧
+      (Sys.fresh cfg).markRun steps 0 = 0 := by
+  have hB := c03_marker_zero_of_no_drop cfg steps r s hsteps hlegal hwf halive hs h0
+  obtain ⟨_, ⟨s1, hs1, hli⟩, _, _⟩ := reach_HSys cfg steps r hsteps hlegal hwf halive
+  rw [hs] at hs1; cases hs1
+  obtain ⟨hrem, htr⟩ := no_removals_of_jstart_zero_C3 hli h0
+  exact ⟨hrem, htr, hB⟩
+
+/-- **C03 with the callback, for histories that have not dropped a chunk** —
+no unproved hypothesis. History `pre ++ [flush (some i)] ++ mid ++ [st] ++ post`
+of legal journal steps from a freshly opened store, worker alive at the end, the
+oldest live chunk still chunk 0; callback `i` is used by no other flush before
+`st`, and the worker thread emits `Ev.cb i true` during step `st`. Then for every
+crash image `img` of the final directory and every configuration `cfg'`: if
+`openStore cfg' img` succeeds with store `s'`, then `s'.st` and the index keys of
+`s'.log` are those of the reference log after the first `n` entry-level writes of
+the history, for some `n` that is at least the number of writes issued before
+that flush. -/
+theorem c03_acked_writes_survive_no_drop (cfg cfg' : Cfg) (pre mid post : List Step) (i : Nat)
+    (st : Step) (r : RefLog) (s : Store)
+    (hsteps : ∀ x ∈ pre ++ ([.flush (some i)] ++ mid ++ [st] ++ post), x.journal = true)
+    (hlegal : RefLog.run {} (stepOps (pre ++ ([.flush (some i)] ++ mid ++ [st] ++ post))) = some r)
+    (hwf : ∀ op ∈ stepOps (pre ++ ([.flush (some i)] ++ mid ++ [st] ++ post)), op.WF ∧ op.small)
+    (halive : ((Sys.fresh cfg).run (pre ++ ([.flush (some i)] ++ mid ++ [st] ++ post))).worker.pc ≠ .dead)
+    (hfresh : ∀ x ∈ pre ++ mid, x ≠ .flush (some i))
+    (hcb : Ev.cb i true ∈ ((Sys.fresh cfg).run (pre ++ [.flush (some i)] ++ mid)).stepEvs st)
+    (hs : ((Sys.fresh cfg).run (pre ++ ([.flush (some i)] ++ mid ++ [st] ++ post))).store = some s)
+    (h0 : s.jstart = 0)
+    (img : Fs)
+    (hc : CrashImage ((Sys.fresh cfg).run (pre ++ ([.flush (some i)] ++ mid ++ [st] ++ post))).fs img)
+    (s' : Store) (w' : Worker) (fs' : Fs) (evs : List Ev)
+    (hopen : openStore cfg' img = (.ok (s', w'), fs', evs)) :
+    let W := expandOps {} (stepOps (pre ++ ([.flush (some i)] ++ mid ++ [st] ++ post)))
+    ∃ n r', RefLog.run {} (W.take n) = some r' ∧ s'.st = r'.state ∧
+      logKeys s'.log = entKeys r'.entries ∧ (expandOps {} (stepOps pre)).length ≤ n := by
+  obtain ⟨hrem, htr, hB⟩ := c03_no_drop_facts cfg _ r s hsteps hlegal hwf halive hs h0
+  exact c03_acked_writes_survive_partial cfg cfg' pre mid post i st r s hsteps hlegal hwf halive hfresh hcb
+    hs hrem htr (by rw [hB]; exact Nat.zero_le _) img hc s' w' fs' evs hopen
+
+/-! ### Non-vacuity -/
+
+/-- A history with a chunk rotation (chunks hold four records), a flush whose
+callback is acknowledged, then a `commit` whose record is only partly written
+(a short write of 5 of its 28 bytes, not synced) and an `append` that is still
+in the pending buffer: an unflushed tail. -/
+def c03Example : List Step :=
+  [ .call (.saveVote ⟨1, 7⟩),
+    .call (.append [(⟨1, 0⟩, [1, 2, 3]), (⟨1, 1⟩, [4])]),
+    .flush (some 7),
+    .workerIdle,
+    .call (.commit ⟨1, 0⟩),
+    .flush none,
+    .worker .ok,
+    .worker (.short 5),
+    .call (.append [(⟨1, 2⟩, [5, 6])]) ]
+
+/-- The hypotheses of `c03_crash_prefix_no_drop` (any split) and of
+`c03_acked_writes_survive_no_drop` hold for it: the steps are of
+the kinds covered, the ops legal, well-formed and small, the worker alive, the
+oldest live chunk is chunk 0. Two chunk files: chunk 0 (114 bytes, all durable)
+and chunk 114 (55 bytes written, 50 durable: its head); 34 bytes are pending.
+The acknowledged position is 164 = the journal end at the flush. -/
+example :
+    (∀ st ∈ c03Example, st.journal = true) ∧
+    (RefLog.run {} (stepOps c03Example)).isSome = true ∧
+    (∀ op ∈ stepOps c03Example, op.WF ∧ op.small) ∧
+    ((Sys.fresh { maxRecords := 4 }).run c03Example).worker.pc ≠ .dead ∧
+    (∃ s, ((Sys.fresh { maxRecords := 4 }).run c03Example).store = some s ∧ s.jstart = 0 ∧
+      s.closed.map Closed.id = [0] ∧ s.openId = 114 ∧ s.openEnd = 226 ∧ s.pending.length = 34) ∧
+    ((Sys.fresh { maxRecords := 4 }).run c03Example).fs.map
+      (fun f => (f.id, f.data.length, f.durable, f.linked)) = [(0, 114, 114, true), (114, 55, 50, true)] ∧
+    (Sys.fresh { maxRecords := 4 }).ackRun c03Example 0 = 164 ∧
+    (Sys.fresh { maxRecords := 4 }).markRun c03Example 0 = 0 := by
+  refine ⟨by decide, by decide +kernel, ?_, by decide +kernel, ⟨_, rfl, by decide +kernel, by decide +kernel,
+    by decide +kernel, by decide +kernel, by decide +kernel⟩, by decide +kernel, by decide +kernel,
+    by decide +kernel⟩
+  intro op hop
+  simp only [c03Example, stepOps, List.mem_cons, List.not_mem_nil, or_false] at hop
+  rcases hop with h | h | h | h <;> subst h <;>
+    simp [Op.WF, Op.small, LogId.WF, bytesWF, smallId, U64, U32]
+
+/-- Three crash images of its directory — a process crash (the torn `commit`
+record survives as 5 bytes), the worst power failure (chunk 114 cut to its 50
+durable bytes), and a power failure that leaves 3 zero bytes after the record
+boundary 50 of chunk 114 — are crash images. -/
+example :
+    CrashImage ((Sys.fresh { maxRecords := 4 }).run c03Example).fs
+      (cutCrash ((Sys.fresh { maxRecords := 4 }).run c03Example).fs [(114, 0), (55, 0)]) ∧
+    CrashImage ((Sys.fresh { maxRecords := 4 }).run c03Example).fs
+      (cutCrash ((Sys.fresh { maxRecords := 4 }).run c03Example).fs [(114, 0), (50, 0)]) ∧
+    CrashImage ((Sys.fresh { maxRecords := 4 }).run c03Example).fs
+      (cutCrash ((Sys.fresh { maxRecords := 4 }).run c03Example).fs [(114, 0), (50, 3)]) :=
+  ⟨cutCrash_image _ _ (by decide +kernel), cutCrash_image _ _ (by decide +kernel),
+    cutCrash_image _ _ (by decide +kernel)⟩
+
+/-- What `open` recovered: state and index keys. -/
+def c03View (x : Res (Store × Worker)) : Option (RState × List (Nat × LogId)) :=
+  match x with
+  | .ok (s', _) => some (s'.st, s'.log.map (fun e => (e.1, e.2.id)))
+  | _ => none
+
+def c03IsEof (x : Res (Store × Worker)) : Bool :=
+  match x with
+  | .err .eof => true
+  | _ => false
+
+/-- ... and `open` (default configuration, `truncate = true`) succeeds on each of
+them and returns the state and index keys of the reference log after the first
+three entry-level writes `saveVote (1,7)`, `append (1,0)`, `append (1,1)` — the
+writes before the acknowledged flush; the `commit` and the last `append` are
+lost. With `truncate = false` the process-crash image is refused (`eof`). -/
+example :
+    (expandOps {} (stepOps c03Example)).length = 5 ∧
+    (RefLog.run {} ((expandOps {} (stepOps c03Example)).take 3)).map
+        (fun r' => (r'.state, entKeys r'.entries)) =
+      some (⟨some ⟨1, 7⟩, some ⟨1, 1⟩, none, none, none⟩, [(0, ⟨1, 0⟩), (1, ⟨1, 1⟩)]) := by
+  constructor <;> decide +kernel
+
+example :
+    c03View (openStore {} (cutCrash ((Sys.fresh { maxRecords := 4 }).run c03Example).fs
+        [(114, 0), (55, 0)])).1 =
+      some (⟨some ⟨1, 7⟩, some ⟨1, 1⟩, none, none, none⟩, [(0, ⟨1, 0⟩), (1, ⟨1, 1⟩)]) := by
+  decide +kernel
+
+example :
+    c03View (openStore {} (cutCrash ((Sys.fresh { maxRecords := 4 }).run c03Example).fs
+        [(114, 0), (50, 0)])).1 =
+      some (⟨some ⟨1, 7⟩, some ⟨1, 1⟩, none, none, none⟩, [(0, ⟨1, 0⟩), (1, ⟨1, 1⟩)]) := by
+  decide +kernel
+
+example :
+    c03View (openStore {} (cutCrash ((Sys.fresh { maxRecords := 4 }).run c03Example).fs
+        [(114, 0), (50, 3)])).1 =
+      some (⟨some ⟨1, 7⟩, some ⟨1, 1⟩, none, none, none⟩, [(0, ⟨1, 0⟩), (1, ⟨1, 1⟩)]) := by
+  decide +kernel
+
+example :
+    c03IsEof (openStore { truncate := false }
+      (cutCrash ((Sys.fresh { maxRecords := 4 }).run c03Example).fs [(114, 0), (55, 0)])).1 = true := by
+  decide +kernel
+
+/-- The hypotheses of `c03_acked_flush` hold for the same history: callback 7
+is used by one flush only, and the `workerIdle` step after it emits
+`Ev.cb 7 true`; the journal end at the flush is 164. -/
+example :
+    c03Example = [.call (.saveVote ⟨1, 7⟩), .call (.append [(⟨1, 0⟩, [1, 2, 3]), (⟨1, 1⟩, [4])])]
+      ++ [.flush (some 7)] ++ [] ++ [.workerIdle] ++
+      [.call (.commit ⟨1, 0⟩), .flush none, .worker .ok, .worker (.short 5),
+       .call (.append [(⟨1, 2⟩, [5, 6])])] ∧
+    (((Sys.fresh { maxRecords := 4 }).run
+      [.call (.saveVote ⟨1, 7⟩), .call (.append [(⟨1, 0⟩, [1, 2, 3]), (⟨1, 1⟩, [4])])]).store.map
+        Store.openEnd) = some 164 ∧
+    Ev.cb 7 true ∈ ((Sys.fresh { maxRecords := 4 }).run
+      ([.call (.saveVote ⟨1, 7⟩), .call (.append [(⟨1, 0⟩, [1, 2, 3]), (⟨1, 1⟩, [4])])]
+        ++ [.flush (some 7)] ++ [])).stepEvs .workerIdle := by
+  refine ⟨rfl, by decide +kernel, by decide +kernel⟩
+
+end RaftLog
